@@ -1,7 +1,7 @@
 """C20 -- writer/reader wiring: what load_X returns after save_X is the corresponding FullGrid getter's value (value,
 pattern and entry order by the round-trip axiom of np.save/np.load and save_npz/load_npz)."""
 import z3
-from pyvc.core import Num, Str, Obj, Opaque, NONE, zint
+from pyvc.core import Num, Str, Obj, Opaque, NONE, zint, Unsupported
 from pyvc.ops import lift
 from pyvc.verify import Contract
 from pyvc.interp import Stub
@@ -86,10 +86,18 @@ def line_facts(k):
     return fs
 
 
+def cnt_facts(k):
+    k = zint(k)
+    return [CNT(0) == 0, z3.Implies(k >= 0, CNT(k + 1) == CNT(k) + z3.If(KIND(k) == LEG, 1, 0)), z3.Implies(k >= 0, CNT(k) >= 0)]
+
+
 def unfold_cnt(ctx, k):
-    ctx.assume(CNT(0) == 0)
-    ctx.assume(z3.Implies(k >= 0, CNT(k + 1) == CNT(k) + z3.If(KIND(k) == LEG, 1, 0)))
-    ctx.assume(z3.Implies(k >= 0, CNT(k) >= 0))
+    for f in cnt_facts(k):
+        ctx.assume(f)
+    defs = ctx.__dict__.setdefault("ghost_defs", [])
+    if cnt_facts not in defs:
+        defs.append(cnt_facts)
+        defs.append(lambda j: line_facts(zint(j)))       # and the reading of every line of the small file
 
 
 class ColumnNames(Contract):
@@ -155,7 +163,7 @@ class ColumnNames(Contract):
         # the loop's exit state gives the two facts for the d it stopped at; stated for that d through the invariant instance
         st = getattr(ctx, "c20_exit", None)
         if st is None:
-            V.oblige("post:exit-state-recorded", False)
+            raise Unsupported("loop exit state not recorded: the contract does not fit this code")
             return
         dd = st
         unfold_cnt(ctx, dd)
